@@ -127,6 +127,8 @@ mod wfactors;
 pub mod cte;
 pub mod error;
 pub mod types;
+#[cfg(feature = "verif_hooks")]
+pub mod verif_hooks;
 
 pub use asctexml::*;
 pub use asplain::*;
